@@ -1,18 +1,188 @@
 """C09 - edge IoU always equals the true overlap of the endpoint masks."""
+from __future__ import annotations
+
+import warnings
+
+import numpy as np
+
+from .. import pure, refs
+from ..hyp import st
 from ..oracles import C09Oracle
+from ..pure import Part, ProbeResult
 from ._machine_prop import make
 
 ID = "C09"
 RULE = (
-    "Walks on tracks with segmentation whose forests contain skip edges and children placed near "
+    "(a) Walks on tracks with segmentation whose forests contain skip edges and children placed near "
     "their parent (overlaps are common). IoU is enabled at construction or at a random later step, "
     "disabled and re-enabled, or recomputed in bulk in the middle of a history (extra op). After "
     "every step with IoU enabled: every edge's stored value == |A and B|/|A or B| (exact Fraction, "
-    "each mask in its endpoint's own frame), rtol 1e-9. Non-trivial = an edge with 0 < IoU < 1; "
-    "distinct by (bulk/incremental, skip/consecutive, numerator, denominator)."
+    "each mask in its endpoint's own frame), rtol 1e-9. (b) Part 'frames': label stacks of every "
+    "integer dtype (8/16/32/64 bit, signed and unsigned) whose labels sit near the limits of the "
+    "dtype, around 2**8, 2**16 and up to 10**6, many labels per frame, with a forest over them; IoU "
+    "is enabled (bulk), then one edge is removed and added again and one node repainted "
+    "(incremental); same oracle. Non-trivial = an edge with 0 < IoU < 1; distinct by "
+    "(bulk/incremental, skip/consecutive, numerator, denominator), in (b) also dtype and label range."
 )
-ASSUMPTIONS = []
+ASSUMPTIONS = ["part 'frames': labels <= 10**6 (skimage.regionprops allocates per label value)"]
 REQUIRED_CLASSES = {t: ["iou_edge:skip:bulk", "iou_edge:skip:incremental", "iou_edge:consecutive:bulk",
-                        "iou_edge:consecutive:incremental"] for t in ("quick", "thorough")}
-run_shard, replay, minimise = make(C09Oracle, quick=(1600, 25), thorough=(3200, 40), profile="paint",
-                                   cfg_kwargs={"seg": True}, init_kwargs={"need_edges": True})
+                        "iou_edge:consecutive:incremental", "frames:narrow_dtype_large_label",
+                        "frames:many_labels"] for t in ("quick", "thorough")}
+_m_run, _m_replay, _m_minimise = make(C09Oracle, quick=(1600, 25), thorough=(3200, 40), profile="paint",
+                                      cfg_kwargs={"seg": True}, init_kwargs={"need_edges": True})
+
+DTYPES = ["uint8", "int8", "uint16", "int16", "uint32", "int32", "uint64", "int64"]
+
+
+def _build(rnd) -> dict:
+    dtype = rnd.choice(DTYPES)
+    top = min(int(np.iinfo(dtype).max), 10**6)
+    ndim = 3 if rnd.random() < 0.8 else 4
+    shape = [rnd.randint(5, 12), rnd.randint(5, 12)] if ndim == 3 else [3, rnd.randint(4, 6), rnd.randint(4, 6)]
+    frames = rnd.randint(2, 5)
+    many = rnd.random() < 0.3
+    # label pool: near the top of the dtype, around powers of two, small
+    anchors = [a for a in (top, top // 2, 2**16, 2**8, 2**4, 1, 46341, 65536 + 5, 181, 4097) if 1 <= a <= top]
+    used: set[int] = set()
+    nodes = []
+    per_frame: list[list[dict]] = []
+    for t in range(frames):
+        k = rnd.randint(4, 9) if many else rnd.randint(0, 4)
+        cur = []
+        for _ in range(k):
+            a = rnd.choice(anchors)
+            lab = max(1, min(top, a - rnd.randint(0, 30) if rnd.random() < 0.7 else rnd.randint(1, top)))
+            if lab in used:
+                continue
+            used.add(lab)
+            parent = None
+            prev = [n for fr in per_frame for n in fr if n["kids"] < 2]
+            if prev and rnd.random() < 0.8:
+                last = [n for n in prev if n["t"] == t - 1]
+                parent = rnd.choice(last if last and rnd.random() < 0.7 else prev)
+            lo, hi = [], []
+            for d, s in enumerate(shape):
+                ln = rnd.randint(1, max(1, min(4, s - 1)))
+                if parent is not None and rnd.random() < 0.75:
+                    a0 = max(0, min(s - ln, parent["box"][0][d] + rnd.randint(-1, 1)))
+                else:
+                    a0 = rnd.randint(0, s - ln)
+                lo.append(a0)
+                hi.append(a0 + ln)
+            n = {"id": lab, "t": t, "box": [lo, hi], "parent": None if parent is None else parent["id"], "kids": 0}
+            if parent is not None:
+                parent["kids"] += 1
+            cur.append(n)
+        per_frame.append(cur)
+        nodes.extend(cur)
+    for n in nodes:
+        n.pop("kids")
+    return {"dtype": dtype, "ndim": ndim, "shape": shape, "frames": frames, "nodes": nodes,
+            "solution": rnd.random() < 0.5, "edit": rnd.random() < 0.6, "edit_pick": rnd.randint(0, 10**6)}
+
+
+def frames_inputs():
+    return st.randoms(use_true_random=False).map(_build)
+
+
+def _mask(seg, n):
+    return seg[n["t"]] == n["id"]
+
+
+def probe_frames(v) -> ProbeResult:
+    import networkx as nx
+    from funtracks.data_model import SolutionTracks, Tracks
+
+    res = ProbeResult()
+    seg = np.zeros((v["frames"], *v["shape"]), dtype=v["dtype"])
+    for n in v["nodes"]:  # later labels overwrite earlier ones
+        seg[(n["t"], *[slice(a, b) for a, b in zip(*n["box"])])] = n["id"]
+    alive = {n["id"]: n for n in v["nodes"] if _mask(seg, n).any()}
+    g = nx.DiGraph()
+    for n in alive.values():
+        g.add_node(n["id"], time=n["t"])
+    for n in alive.values():
+        if n["parent"] in alive:
+            g.add_edge(n["parent"], n["id"])
+    if not g.number_of_edges():
+        res.discarded = "no_edge"
+        return res
+    with warnings.catch_warnings():
+        warnings.simplefilter("ignore")
+        cls = SolutionTracks if v["solution"] else Tracks
+        tr = cls(g, segmentation=seg, ndim=v["ndim"])
+
+        def compare(how):
+            for a, b in sorted(tr.graph.edges):
+                ref = refs.iou(tr.segmentation[alive[a]["t"]] == a, tr.segmentation[alive[b]["t"]] == b)
+                got = tr.graph.edges[a, b].get("iou")
+                skip = alive[b]["t"] - alive[a]["t"] > 1
+                if got is None or not refs.close(float(got), float(ref)):
+                    res.fail(f"{how}:{'skip' if skip else 'consecutive'}",
+                             f"{how} ({v['dtype']}): edge ({a},{b}) t={alive[a]['t']}->{alive[b]['t']}: stored iou "
+                             f"{got!r} != {float(ref)!r} ({ref})")
+                    return
+                if 0 < ref < 1:
+                    res.tags.append(f"iou_edge:{'skip' if skip else 'consecutive'}:{how}")
+                    res.nontrivial = (v["dtype"], how, skip, ref.numerator, ref.denominator,
+                                      int(np.log2(max(a, b))))
+        try:
+            _run(v, res, tr, alive, compare)
+        except Exception as e:  # noqa: BLE001 - a well-formed label stack: raising leaves no value
+            res.fail(f"raised:{type(e).__name__}", f"({v['dtype']}) IoU computation raised {e!r} on a well-formed input")
+    _tags(v, res, alive)
+    return res
+
+
+def _run(v, res, tr, alive, compare):
+    from funtracks.actions import UpdateNodeSeg
+    from funtracks.data_model import SolutionTracks
+    from funtracks.user_actions import UserAddEdge, UserDeleteEdge
+
+    tr.enable_features(["iou"])
+    compare("bulk")
+    if not v["edit"] or res.failures or not isinstance(tr, SolutionTracks):
+        return
+    edges = sorted(tr.graph.edges)
+    e = edges[v["edit_pick"] % len(edges)]
+    UserDeleteEdge(tr, e)
+    UserAddEdge(tr, e)
+    # grow the target of the edge by a third of the free pixels of its frame
+    tgt = alive[e[1]]
+    free = np.nonzero(tr.segmentation[tgt["t"]] == 0)
+    if len(free[0]):
+        k = max(1, len(free[0]) // 3)
+        px = (np.full(k, tgt["t"]), *[a[:k] for a in free])
+        UpdateNodeSeg(tr, e[1], px, added=True)
+    compare("incremental")
+
+
+def _tags(v, res, alive):
+    top = int(np.iinfo(v["dtype"]).max)
+    biggest = max(alive)
+    if np.iinfo(v["dtype"]).bits <= 16 and biggest * biggest > top:
+        res.tags.append("frames:narrow_dtype_large_label")
+    if np.iinfo(v["dtype"]).bits == 32 and biggest * biggest > top:
+        res.tags.append("frames:32bit_product_overflow")
+    if max(sum(1 for n in alive.values() if n["t"] == t) for t in range(v["frames"])) >= 5:
+        res.tags.append("frames:many_labels")
+
+
+PARTS = [Part("frames", frames_inputs(), probe_frames, quick=1600, thorough=12000)]
+
+
+def run_shard(ctx):
+    pure.run_shard(ctx, PARTS)
+    _m_run(ctx)
+
+
+def replay(obj, col):
+    if obj.get("part"):
+        return pure.replay(PARTS, obj, col)
+    return _m_replay(obj, col)
+
+
+def minimise(bucket, failure):
+    if failure["replay"].get("part"):
+        return pure.minimise(PARTS, bucket, failure)
+    return _m_minimise(bucket, failure)
